@@ -338,6 +338,8 @@ def run(rep, facts, tier):
     for name, cfg in cfgs.items():
         guard_set(rep, cfg)
         canon_parse(rep, cfg)
+        from . import c01
+        c01.isqrt_zero_cases(rep, cfg)
         if name == "A":
             from_bigint_rule(rep, cfg)
         eps = funnel(rep, cfg)
